@@ -13,7 +13,7 @@ SPEC = {
         'config': {'stubs': STUBS, 'defines': ['-DCPPUTEST_VERIF_HASH_TABLE_SIZE=4'], 'heapcheck': False, 'empty_regex': ['^_ZN[0-9]+[A-Za-z]*FailureC[12]E']},
         'obligations': [
             {'fn': 'harness_request_size', 'unwind': 32, 'timeout': 600, 'optional_witness': ['exit path'], 'bounds': 'request size: EVERY 64-bit value; alloc and realloc path; family and bookkeeping layout symbolic'},
-        ] + [{'fn': 'harness_alloc_%d' % n, 'unwind': 32, 'timeout': 900, 'optional_witness': ['exit path', 'end'], 'bounds': 'a %d-byte allocation; family and bookkeeping layout symbolic (a failing platform malloc fails the test in the default allocators: covered by C15)' % n} for n in (0, 1, 7, 8, 13)] + [
+        ] + [{'fn': 'harness_alloc_%d' % n, 'unwind': 32, 'timeout': 900, 'optional_witness': ['exit path', 'end'], 'bounds': 'a %d-byte allocation; family and bookkeeping layout symbolic (a failing platform malloc fails the test in the default allocators: covered by C15)' % n} for n in (0, 1, 5, 7, 8, 13, 16, 21, 24)] + [{'fn': 'harness_alloc_%d' % n, 'unwind': 40, 'timeout': 1800, 'tier': 'thorough', 'optional_witness': ['exit path', 'end'], 'bounds': 'a %d-byte allocation; family and bookkeeping layout symbolic' % n} for n in (29, 32)] + [
             {'fn': 'harness_realloc_%s' % k, 'unwind': 32, 'timeout': 5400, 'tier': 'thorough', 'optional_witness': ['exit path'], 'bounds': 'realloc %s; contents and failure of the underlying realloc symbolic' % d} for k, d in (('grow', '2 -> 4 bytes, inline record'), ('shrink', '4 -> 1 bytes, inline record'), ('grow_sep', '2 -> 4 bytes, separate record'), ('zero', '3 -> 0 bytes, inline record'))] + [
             {'fn': 'finding_failed_realloc_untracks', 'unwind': 32, 'timeout': 900, 'expect': 'fail', 'optional_witness': ['exit path'], 'bounds': 'alloc 4; realloc to 8 with a failing underlying realloc'},
         ],
